@@ -3,8 +3,8 @@
 //! Engine B (threads), against a real on-disk `radicle::storage::git::Repository` (storage in a
 //! temp dir, identity initialised with `Repository::init`, real `sign_refs`).
 //!
-//! * `roundtrip` — every ref set of size ≤ 3 (thorough ≤ 4) over 13 valid names (nested, tag, cob,
-//!                 `rad/id`, `rad/root`, a 250-byte component, `@`, `+`, `.`, UTF-8, one-level)
+//! * `roundtrip` — every ref set of size ≤ 3 (thorough ≤ 4) over 14 valid names (nested, tag, cob,
+//!                 `rad/id`, `rad/root`, `rad/sigrefs`, a 250-byte component, `@`, `+`, `.`, UTF-8, one-level)
 //!                 × 4 object ids (01…, ff…, 00…01, the real identity root commit):
 //!                 `from_canonical(canonical(r)) == r`, the text equals the reference text
 //!                 (`<oid> SP <name> LF`, sorted by name), and the set is signed with
@@ -14,7 +14,8 @@
 //!                 single-bit flip of the refs blob, of the signature and of the claimed key; every
 //!                 line deletion, duplication (at every position) and reordering; a zero oid in
 //!                 every line and as an extra line; every swap of two oids; a second line for an
-//!                 existing name with another oid; CRLF / missing final newline; signature of
+//!                 existing name with another oid; one extra line `<oid> <name>` at every position for
+//!                 every name of the alphabet not in the set × the 4 oids; CRLF / missing final newline; signature of
 //!                 63 / 65 / 0 bytes; another signer's key; and — signed by the *real* key —
 //!                 every non-canonical text of the families above ("re-signed").
 //!                 Each mutant is stored as a real commit (blobs `refs` + `signature`) and loaded
@@ -226,6 +227,8 @@ enum Mutation {
     SameNameOtherOid(usize, usize),
     Crlf(usize),
     NoFinalNewline,
+    /// one extra line `<oid> <name>` for a name that is not in the signed set, inserted at position `.2`
+    ExtraLine(String, String, usize),
     /// the text produced by the inner mutation, signed afresh by the real signer
     Resigned(Box<Mutation>),
 }
@@ -282,6 +285,11 @@ fn mutate_text(blob: &[u8], m: &Mutation) -> Vec<u8> {
             ls[*l].push('\r');
             join(&ls)
         }
+        Mutation::ExtraLine(name, oid, pos) => {
+            let mut ls = ls;
+            ls.insert(*pos, format!("{oid} {name}"));
+            join(&ls)
+        }
         Mutation::NoFinalNewline => {
             let mut b = blob.to_vec();
             b.pop();
@@ -312,7 +320,8 @@ fn permutations(n: usize) -> Vec<Vec<usize>> {
     out
 }
 
-fn text_mutations(n_lines: usize) -> Vec<Mutation> {
+fn text_mutations(set: &SignedSet, names: &[String], oids: &[String]) -> Vec<Mutation> {
+    let n_lines = lines_of(&set.blob).len();
     let mut v = vec![];
     let id: Vec<usize> = (0..n_lines).collect();
     if n_lines <= 6 {
@@ -358,11 +367,18 @@ fn text_mutations(n_lines: usize) -> Vec<Mutation> {
         v.push(Mutation::ExtraZeroLine(pos));
     }
     v.push(Mutation::NoFinalNewline);
+    for name in names.iter().filter(|n| !set.model.contains_key(*n)) {
+        for oid in oids {
+            for pos in 0..=n_lines {
+                v.push(Mutation::ExtraLine(name.clone(), oid.clone(), pos));
+            }
+        }
+    }
     v.dedup();
     v
 }
 
-fn mutations_of(set: &SignedSet) -> Vec<Mutation> {
+fn mutations_of(set: &SignedSet, names: &[String], oids: &[String]) -> Vec<Mutation> {
     let mut v = vec![Mutation::None];
     for i in 0..set.blob.len() * 8 {
         v.push(Mutation::BlobBit(i));
@@ -381,7 +397,7 @@ fn mutations_of(set: &SignedSet) -> Vec<Mutation> {
     for l in [0, 1, 32, 63, 65, 128] {
         v.push(Mutation::SigLen(l));
     }
-    let tm = text_mutations(lines_of(&set.blob).len());
+    let tm = text_mutations(set, names, oids);
     for m in &tm {
         v.push(m.clone());
     }
@@ -493,6 +509,7 @@ fn names() -> Vec<String> {
         format!("refs/cobs/xyz.radicle.issue/{}", "d9".repeat(20)),
         "refs/rad/id".into(),
         "refs/rad/root".into(),
+        "refs/rad/sigrefs".into(),
         format!("refs/heads/{}", "x".repeat(250)),
         "refs/heads/a@b".into(),
         "refs/heads/a+b".into(),
@@ -626,7 +643,7 @@ fn main() {
     // mutants ---------------------------------------------------------------------------------
     let mut items: Vec<(usize, Mutation)> = vec![];
     for (si, set) in fx.sets.iter().enumerate() {
-        for m in mutations_of(set) {
+        for m in mutations_of(set, &names, &oids) {
             items.push((si, m));
         }
     }
@@ -644,15 +661,15 @@ fn main() {
         json!({"kind": "mutant", "set": items[items.len() - 1].0, "mutation": items[items.len() - 1].1}),
     ];
     let mut cov = st.coverage(
-        "roundtrip: every subset of ≤ max names out of 13 × every assignment of 4 oids, canonical → from_canonical, then Refs::signed + SignedRefs::verified on the real repository; \
-         mutants: for each of 4 signed sets every single-bit flip of refs blob / signature / claimed key, every line deletion / duplication / reordering, zero oids, oid swaps, same-name-other-oid lines, CRLF, missing final newline, \
+        "roundtrip: every subset of ≤ max names out of 14 × every assignment of 4 oids, canonical → from_canonical, then Refs::signed + SignedRefs::verified on the real repository; \
+         mutants: for each of 4 signed sets every single-bit flip of refs blob / signature / claimed key, every line deletion / duplication / reordering, zero oids, oid swaps, same-name-other-oid lines, one extra line for every alphabet name not in the set × 4 oids × every position, CRLF, missing final newline, \
          wrong signature lengths, other signers' keys, and every non-canonical text re-signed by the real key; each stored as a real commit and loaded with SignedRefs::load_at. \
          Trivial = empty set / unmodified set / an index that repeats another item; every other index is a distinct input",
         samples,
     );
     cov.insert("names".into(), json!(names.iter().map(|n| if n.len() > 80 { format!("{}…({} bytes)", &n[..20], n.len()) } else { n.clone() }).collect::<Vec<_>>()));
     cov.insert("max_set_size".into(), json!(max));
-    cov.insert("signed_sets".into(), json!(fx.sets.iter().map(|s| json!({"name": s.name, "lines": lines_of(&s.blob).len(), "blob_bytes": s.blob.len(), "mutants": mutations_of(s).len()})).collect::<Vec<_>>()));
+    cov.insert("signed_sets".into(), json!(fx.sets.iter().map(|s| json!({"name": s.name, "lines": lines_of(&s.blob).len(), "blob_bytes": s.blob.len(), "mutants": mutations_of(s, &names, &oids).len()})).collect::<Vec<_>>()));
     let violations = std::mem::take(&mut st.violations);
     drop(tmp);
     ctx.finish(
